@@ -833,13 +833,14 @@ fn drop_world(w: World, shared: &Shared) {
 
 // ---------------------------------------------------------------------------
 
-fn fault_strategy(nm: u16) -> BoxedStrategy<Fault> {
+fn fault_strategy(nm: u16, ncmd: u16) -> BoxedStrategy<Fault> {
     let script = prop_oneof![1 => Just(None), 5 => (0u16..4).prop_map(Some)];
     prop_oneof![
         2 => Just(Fault::None),
         5 => (0..nm, script.clone(), 0u8..4, 0u8..3).prop_map(|(model, script, pos, kind)| Fault::Panic { model, script, pos, kind }),
         3 => (proptest::option::weighted(0.75, 0..nm), 0u8..3).prop_map(|(model, out)| Fault::Dropped { model, out }),
-        3 => (0..nm, script, 0u8..4).prop_map(|(model, script, pos)| Fault::SelfQuery { model, script, pos }),
+        // a self query needs the model's own address: not for detached source models
+        3 => (0..ncmd.max(1), script, 0u8..4).prop_map(|(model, script, pos)| Fault::SelfQuery { model, script, pos }),
         2 => (0..nm, 0u8..3).prop_map(|(model, out)| Fault::Orphan { model, out }),
         3 => (0u8..4, 1u64..20, 0u64..10).prop_map(|(k, lag, tol)| Fault::Lag { k, lag, tol }),
     ]
@@ -871,15 +872,16 @@ pub fn fcase_strategy(exec: BoxedStrategy<Exec>, spin: bool) -> BoxedStrategy<FC
         .prop_flat_map(move |(f, exec)| {
             mcase_strategy(f, Just(exec).boxed()).prop_flat_map(move |base| {
                 let nm = base.bench.models.len() as u16;
+                let ncmd = targetable_models(&base.bench) as u16;
                 let nsrc = base.bench.sources.len() as u16;
                 let fault = if spin {
                     (0..nm, 0u16..4, 0u8..3).prop_map(|(model, script, pos)| Fault::Spin { model, script, pos }).boxed()
                 } else {
-                    fault_strategy(nm)
+                    fault_strategy(nm, ncmd)
                 };
                 (
                     fault,
-                    proptest::collection::vec(post_strategy(nm, nsrc), 1..7),
+                    proptest::collection::vec(post_strategy(ncmd, nsrc), 1..7),
                     proptest::option::weighted(0.4, 0u8..8),
                     proptest::collection::vec((0u8..10, -6i64..0), 0..3),
                     proptest::collection::vec((0u8..10, 0u64..5), 0..3),
